@@ -143,6 +143,10 @@ structure St where
   indentShift : Int := 0
 deriving Repr, DecidableEq, Inhabited
 
+/-- `MAX_IMPLICIT_KEY_CHARS`: the longest text (in characters, quotes and escapes included) written as an
+implicit key `key: value`; a longer scalar key / variant name is written as an explicit key `? key` -/
+def maxImplicitKeyChars : Nat := 1024
+
 /-! ### text helpers -/
 
 def spaces (n : Nat) : List Char := List.replicate n ' '
@@ -595,6 +599,23 @@ def complexKeyMark (o : Opts) (m : MapSer) (s : St) : St :=
 def complexKeyCtx (m : MapSer) (s0 : St) : St :=
   { s0 with pendingInlineMap := true, depth := m.depth, currentMapDepth := some m.depth, afterDashDepth := some m.depth }
 
+/-- block `MapSer::serialize_value` with `last_key_complex` (`s` = the state after the key): `write_indent(depth)`,
+`: `, the value node laid out like a sequence item after `- `, `current_map_depth` replaced by the depth of this
+mapping -/
+def explicitValueCtx (o : Opts) (m : MapSer) (s : St) : St :=
+  let s := mapIndent o m s
+  let s := s.write [':', ' ']
+  { s with pendingSpaceAfterColon := false, pendingInlineMap := true, afterDashDepth := some m.depth,
+           atLineStart := false, depth := m.depth, currentMapDepth := some m.depth }
+
+/-- block `MapSer::serialize_key`, scalar key whose text is longer than `MAX_IMPLICIT_KEY_CHARS`:
+`write_indent(depth)`, `? `, the text, line break; `last_value_was_block` cleared -/
+def longKeyLine (o : Opts) (m : MapSer) (text : List Char) (s : St) : St :=
+  let s := mapIndent o m s
+  let s := s.write (['?', ' '] ++ text)
+  let s := newline s
+  { s with lastValueWasBlock := false }
+
 /-- … after the key (`sk`): the saved `depth` / `current_map_depth` / `pending_inline_map` /
 `inline_map_after_dash` / `after_dash_depth` of `s0` are restored, `last_value_was_block` cleared; then block
 `MapSer::serialize_value` with `last_key_complex`: `write_indent(depth)`, `: `, the value node laid out
@@ -603,10 +624,7 @@ def complexValueCtx (o : Opts) (m : MapSer) (s0 sk : St) : St :=
   let s : St := { sk with depth := s0.depth, currentMapDepth := s0.currentMapDepth, pendingInlineMap := s0.pendingInlineMap,
                           inlineMapAfterDash := s0.inlineMapAfterDash, afterDashDepth := s0.afterDashDepth,
                           lastValueWasBlock := false }
-  let s := mapIndent o m s
-  let s := s.write [':', ' ']
-  { s with pendingSpaceAfterColon := false, pendingInlineMap := true, afterDashDepth := some m.depth,
-           atLineStart := false, depth := m.depth, currentMapDepth := some m.depth }
+  explicitValueCtx o m s
 
 /-- … after the value (`sv`): `current_map_depth`, `pending_inline_map` and `depth` are put back -/
 def complexEntryDone (s0 sv : St) : St :=
@@ -617,7 +635,30 @@ structure VariantFrame where
   prevMapDepth : Option (Option Nat) := none
   restoreShift : Option Int := none
   flow : Bool := false
+  /-- `restore_layout`: `(depth, pending_inline_map)` before an explicit key `? Variant` / `: payload` -/
+  restoreLayout : Option (Nat × Bool) := none
 deriving Repr, DecidableEq
+
+/-- `begin_variant_explicit(key, was_map_value, anchored_key_depth = None)`: the variant name is too long for
+an implicit key: `? Variant`, and on the next line under it `: `, the payload laid out like the value of a
+composite key -/
+def beginVariantExplicit (o : Opts) (key : List Char) (wasMapValue : Bool) (s : St) : VariantFrame × St :=
+  let (rs, keyDepth, s) : Option Int × Nat × St :=
+    if wasMapValue then
+      let s := { s with pendingSpaceAfterColon := false }
+      let s := if !s.atLineStart then newline s else s
+      (none, s.currentMapDepth.getD s.depth + 1, s)
+    else if s.atLineStart then (none, s.depth, s)
+    else match s.afterDashDepth with
+      | some d => (some s.indentShift, d + 1, shiftForInlineNode o s)
+      | none => (none, s.depth, s)
+  let s := writeIndent o s keyDepth
+  let s := s.write (['?', ' '] ++ key)
+  let s := newline s
+  let s := writeIndent o s keyDepth
+  let s := s.write [':', ' ']
+  ({ prevMapDepth := some s.currentMapDepth, restoreShift := rs, restoreLayout := some (s.depth, s.pendingInlineMap) },
+   { s with currentMapDepth := some keyDepth, pendingInlineMap := true, afterDashDepth := some keyDepth, depth := keyDepth })
 
 /-- `begin_variant(variant)`: the key `Variant:` for the position the variant is in -/
 def beginVariant (o : Opts) (f : ScalarFns) (variant : List Char) (s : St) : VariantFrame × St :=
@@ -625,6 +666,8 @@ def beginVariant (o : Opts) (f : ScalarFns) (variant : List Char) (s : St) : Var
     let s := writeSpaceIfPending s
     let s := s.write ('{' :: plainOrQuoted o f variant ++ [':'])
     ({ flow := true }, { s with pendingSpaceAfterColon := true, atLineStart := false })
+  else if (plainOrQuoted o f variant).length > maxImplicitKeyChars then
+    beginVariantExplicit o (plainOrQuoted o f variant) s.pendingSpaceAfterColon s
   else if s.pendingSpaceAfterColon then
     let s := { s with pendingSpaceAfterColon := false }
     let s := if !s.atLineStart then newline s else s
@@ -649,6 +692,9 @@ def beginVariant (o : Opts) (f : ScalarFns) (variant : List Char) (s : St) : Var
 def endVariant (fr : VariantFrame) (s : St) : St :=
   let s := match fr.prevMapDepth with
     | some p => { s with currentMapDepth := p }
+    | none => s
+  let s := match fr.restoreLayout with
+    | some (d, pim) => { s with depth := d, pendingInlineMap := pim }
     | none => s
   let s := restoreShift fr.restoreShift s
   if fr.flow then s.write ['}'] else s
@@ -770,6 +816,14 @@ def serMapEntries (o : Opts) (f : ScalarFns) (m : MapSer) :
       match keyText o f k with
       | some text =>
         -- scalar key
+        if text.length > maxImplicitKeyChars then
+          -- too long for an implicit key: `? key`, then `MapSer::serialize_value` with `last_key_complex`
+          let s0 := longKeyLine o m text s
+          match ser o f v (explicitValueCtx o m s0) with
+          | .error e => .error e
+          | .ok sv =>
+            serMapEntries o f { m with first := false, lastKeyComplex := false } rest (complexEntryDone s0 sv)
+        else
         let s := mapIndent o m s
         let s := s.write (text ++ [':'])
         let s := { s with pendingSpaceAfterColon := true, atLineStart := false }
